@@ -430,6 +430,11 @@ bool vm_ffi_call(const NvmModule *module, uint32_t import_idx,
 bool vm_ffi_cop_start(VmState *vm, const NvmModule *module) {
     if (vm->cop_pid > 0) return true;  /* Already running */
 
+    /* A co-process that dies or closes its end must surface as a failed write
+     * (EPIPE, handled below), not as SIGPIPE killing the VM with its buffered
+     * output. */
+    signal(SIGPIPE, SIG_IGN);
+
     /* Serialize the module to send to co-process */
     uint32_t blob_size = 0;
     uint8_t *blob = nvm_serialize(module, &blob_size);
